@@ -521,6 +521,8 @@ class Module:
                'From Verif.Sem Require Import Field Val.']
         for other in sorted(set(self.spec.get('imports', {}).values())):
             out.append(f'From Run Require {other}.')
+        for req in self.spec.get('requires', []):
+            out.append(f'Require Import {req}.')
         out += ['Import ListNotations.', 'Open Scope string_scope.', 'Open Scope Z_scope.', '',
                 f'Definition source_sha256 : string := "{sha}".', '',
                 'Section Gen.', 'Variable O : Fops.', '']
@@ -544,6 +546,12 @@ class Module:
 def main():
     spec = json.load(open(sys.argv[1]))
     outdir = sys.argv[2]
+    # per-property extensions of the external-callable tables (their Coq meaning lives in the
+    # modules named by a module's "requires")
+    for k, v in spec.get('sigs', {}).items():
+        SIGS[k] = (v[0], v[1], [tuple(x) for x in v[2]])
+    for k, v in spec.get('methods', {}).items():
+        METHODS[k] = (v[0], v[1], [tuple(x) for x in v[2]])
     repo = spec.get('repo', '/repo')
     os.makedirs(outdir, exist_ok=True)
     all_sigs = {}
